@@ -2,6 +2,7 @@
 CONSTANTS
   UnsupportedRule = "pass"
   HeadRule = "rewrite"
+  StatusRule = "pass"
   CtRule = "caseinsensitive"
   ParseRule = "scripting"
   CspRule = "policylist"
